@@ -59,7 +59,13 @@ impl QBNumberCast<i64> for f32 {
 
 impl QBNumberCast<f32> for f64 {
     fn try_cast(&self) -> Result<f32, LintError> {
-        Ok(*self as f32)
+        let f = *self as f32;
+        if f.is_finite() || !self.is_finite() {
+            Ok(f)
+        } else {
+            // a finite double that is too big for a single
+            Err(LintError::Overflow)
+        }
     }
 }
 
